@@ -126,7 +126,8 @@ def SWorld.init (k : Kind) (n : Nat) : SWorld := ⟨#[⟨k, n, []⟩], 0⟩
 def SWorld.obj (w : SWorld) : SObj := w.objs.getD w.cur ⟨.directed, 0, []⟩
 
 /-- `AddEdge` appends to the current object's list and touches no other object; a query touches nothing;
-`Reverse()` adds an object whose list is the flipped list of the current one as it is now -/
+`Reverse()` adds an object whose list is the flipped list of the current one as it is now; `NewX(n, es…)` adds an
+object with the list `es` -/
 def SWorld.step (w : SWorld) : Op → SWorld
   | .edge u v wt =>
     { w with objs := w.objs.setIfInBounds w.cur { w.obj with es := w.obj.es ++ [⟨u, v, wt⟩] } }
@@ -134,6 +135,7 @@ def SWorld.step (w : SWorld) : Op → SWorld
   | .mkrev =>
     if w.obj.k.isDirected then { w with objs := w.objs.push ⟨w.obj.k, w.obj.n, flipSpec w.obj.n w.obj.es⟩ } else w
   | .use i => if i < w.objs.size then { w with cur := i } else w
+  | .mknew n es => { w with objs := w.objs.push ⟨w.obj.k, n, es⟩ }
 
 /-- the final Spec world and, per step, what the call must return: `unit` for `AddEdge`/`Reverse`/`use`, and for a
 query the answer on the current object's graph — kind, vertex count and exactly the edges added to it so far -/
